@@ -7,6 +7,12 @@ TRUSTED_BASE = [
 ]
 
 PROPS = {
+    "C15": dict(
+        assumptions=["the watcher of the model is the harness's recording watcher: it logs which Watcher / WatcherEx / UpdatableWatcher method was called with which arguments",
+                     "ClearPolicy and BuildRoleLinks are memory-only by contract and are not management calls in the sense of the statement; UpdateFilteredPolicies is exercised by the correspondence run only",
+                     "Self* replay calls are covered under C19"],
+        trusted=["modelled: the notify wrappers of internal_api.go (addPolicy, addPolicies, removePolicy, removePolicies, removeFilteredPolicy, updatePolicy, updatePolicies, updateFilteredPolicies), shouldNotify, SavePolicy's notification, the interface assertions WatcherEx / UpdatableWatcher"],
+    ),
     "C04": dict(
         assumptions=["the matcher cache is modelled as: per compiled matcher, the role managers as its memoising g-functions see them (a snapshot taken at compilation); this abstracts the lazily filled memo of util.GenerateGFunction by its stalest possible content",
                      "SetRoleManager is modelled as the supported idiom SetNamedRoleManager(new default manager) followed by BuildRoleLinks; SetModel as SetModel(same definitions) (a fresh state keeping adapter and functions)",
@@ -60,6 +66,7 @@ PROPS = {
 }
 
 LEVEL_TEXT = {
+    "C15": "Proved in Lean for every enforcer state, adapter state (incl. armed faults), watcher kind and management call: a call that reports success triggers exactly one notification of the kind and with the arguments matching the call for that watcher's interfaces, any other outcome triggers none (notify_exactly_once); nothing is announced without a watcher or with auto-notify off; ClearPolicy/BuildRoleLinks are silent; the notification is the last step (the state is that of the un-notified call: notify_is_last); SavePolicy announces itself once iff it succeeds. Peer convergence follows with C10 (adapter = listed rules) and C04 (same rules, same decisions). Tie: all management-call histories of depth <=2 (quick) / <=3 (thorough) x 4 watcher kinds x auto-notify on/off on two real enforcers sharing the recording adapter over a synchronous bus: notification log vs model after every call, exactly-once and peer-convergence checked on the implementation.",
     "C04": "Proved in Lean by invariant over arbitrary interleavings of Enforce (model matcher or custom matcher) with management calls, ClearPolicy and BuildRoleLinks: every cached compiled matcher sees role managers that answer like the current ones (CacheFresh; inv_applyM, inv_enforce, inv_history), hence every decision is the PERM reference decision on the rules listed now (enforce_current) and two enforcers holding the same listed rules decide alike whatever their histories (same_rules_same_decision: live vs freshly constructed). Tie: all call sequences of depth <=3 (quick) / <=4 (thorough) over 16 calls incl. SetRoleManager, AddNamedMatchingFunc, AddNamedDomainMatchingFunc, SetModel, LoadPolicy on pattern-name RBAC and pattern-domain models, all requests enforced after every call, compared with the Lean model (incl. the pattern role manager model), with the reference on listed rules, and on the implementation with a freshly constructed enforcer.",
     "C05": "Proved in Lean by invariant: from a well-formed state in which every role manager holds exactly the links of the grouping rules listed for its definition, every management call (single, batch, Ex, update, batch update, filtered removal on p or g), ClearPolicy and BuildRoleLinks leads to such a state again, whatever the adapter (incl. failing calls) and watcher do (mirror_step, mirror_hist); hence HasLink holds exactly for roles reachable within the hierarchy depth through the rules listed for that domain (hasLink_iff_listed_reach), equals the g() of the PERM reference (hasLink_eq_specLink), answers like a manager rebuilt from GetGroupingPolicy alone (answers_like_rebuild), and links never leak between domains or role definitions. Tie: all histories of depth <=3 (quick) / <=4 (thorough) over 19 grouping calls incl. ClearPolicy/LoadPolicy/SavePolicy for plain, domain and two-definition models, HasLink/GetRoles/GetUsers over the whole universe after every call, plus random histories with over-long rules.",
     "C14": "Proved in Lean for every history of calls, every request tuple (arbitrary byte strings incl. the separator, cacheable and uncacheable parameters) and every clock: whatever a cached enforcer answers was the underlying enforcer's answer to that same tuple, now or at an earlier Enforce separated from now by no InvalidateCache/LoadPolicy/ClearPolicy/removal (synced: or addition) of the identical rule and by at most the configured lifetime (served_was_given); the cache key is injective on request tuples (cacheKey_injective); errors pass through, uncacheable requests and a disabled cache bypass. Tie: seeded random histories (and real-time lifetime cases) on the real CachedEnforcer and SyncedCachedEnforcer; every served answer is compared with the model and must be admissible.",
@@ -77,4 +84,4 @@ NOT_APPLICABLE = {
 }
 
 # properties whose check is complete (theorems proved, correspondence wired) and therefore claimed in MANIFEST.json
-CLAIMED = ["C01", "C02", "C04", "C05", "C06", "C08", "C09", "C14"]
+CLAIMED = ["C01", "C02", "C04", "C05", "C06", "C08", "C09", "C14", "C15"]
